@@ -15,6 +15,7 @@ import io
 import itertools
 import math
 
+import casadi as ca
 import numpy as np
 
 from .. import alpha, core, ref
@@ -121,7 +122,7 @@ def explore(case):
     if tier != "thorough" and pname.startswith("spin_"):
         quats, vbs, ws = quats[::4], vbs[:2], ws[:2]
     for q, vb, w, om, z in itertools.product(quats, vbs, ws, oms, zs):
-        for du in (-100.0, 0.0, 100.0, np.array([100.0, -100.0, 50.0, -20.0])):
+        for du in (-100.0, 0.0, 100.0, np.array([100.0, -100.0, 50.0, -20.0]), np.array([1.0, -4.0, 9.0, -0.25])):
             u = om + du
             x = np.concatenate([[0.4, -1.2, z], vb, q, w, om])
             res.count("evaluations")
@@ -181,6 +182,43 @@ def explore(case):
                     res.count("evaluations")
                     if maxabs(xd2 - want2) > 1e-9 * (1 + maxabs(want2)):
                         res.fail(site="quadrotor.f", clause="equivariant_under_yaw_and_horizontal_translation", cls=cls, detail=dict(info, psi=psi, delta=delta, got=xd2, want=want2), sub="model", case=case)
+    # the tables the model ships are consumed by position (`sim()`, the simulation scripts pass `p_defaults.values()` / `x0_defaults.values()`):
+    # they must list the entries in the order of the parameter / state vectors, and a positional evaluation must equal the by-name one
+    pnames = [m["p"][i].name() for i in range(m["p"].shape[0])]
+    xnames = [m["x"][i].name() for i in range(m["x"].shape[0])]
+    res.count("evaluations")
+    if list(m["p_defaults"].keys()) != pnames or list(m["x0_defaults"].keys()) != xnames:
+        res.fail(site="quadrotor.p_defaults", clause="default_tables_in_vector_order", cls="-", detail=dict(p_defaults=list(m["p_defaults"].keys()), p=pnames,
+                 x0_defaults=list(m["x0_defaults"].keys()), x=xnames), sub="model", case=case)
+    else:
+        tab = dict(m["p_defaults"])
+        tab.update(over)
+        ppos = np.array([float(v) for v in tab.values()])
+        xt = np.concatenate([[0.4, -1.2, 2.0], vbs[1], quats[min(5, len(quats) - 1)], ws[1], oms[2]])
+        a1 = np.array(f(xt, oms[2] + 50.0, ppos), dtype=float)
+        a2 = np.array(f(xt, oms[2] + 50.0, pv), dtype=float)
+        if not np.array_equal(a1, a2):
+            res.fail(site="quadrotor.p_defaults", clause="positional_parameter_table_equals_named", cls="-", detail=dict(params=pname), sub="model", case=case)
+    # the integrator interface (`model["dae"]`, used with idas / cvodes by sim() and the scripts) carries the same right-hand side as `f`,
+    # also off the unit sphere (a stabilisation term would vanish for unit quaternions)
+    dae = m["dae"]
+    try:
+        fode = ca.Function("ode", [dae["x"], dae["u"], dae["p"]], [dae["ode"]])
+    except (KeyError, RuntimeError) as ex:
+        res.count("evaluations")
+        res.fail(site="quadrotor.dae", clause="integrator_interface_defined", cls="-", detail=dict(error="%s: %s" % (type(ex).__name__, str(ex)[:200])), sub="model", case=case)
+        fode = None
+    if fode is not None:
+        for q, vb, w, om in itertools.product(quats[::3], vbs[1:], ws[1:], oms[1:]):
+            for sc_q in (1.0, 1.1, 0.9):
+                xq = np.concatenate([[0.4, -1.2, 2.0], vb, q * sc_q, w, om])
+                u = om + np.array([30.0, -10.0, 0.0, 5.0])
+                res.count("evaluations")
+                b1 = np.array(fode(xq, u, pv), dtype=float).reshape(-1)
+                b2 = np.array(f(xq, u, pv), dtype=float).reshape(-1)
+                if not (np.all(np.isfinite(b1)) and maxabs(b1 - b2) <= 1e-12 * (1 + maxabs(b2))):
+                    res.fail(site="quadrotor.dae", clause="integrator_right_hand_side_equals_f", cls="unit" if sc_q == 1.0 else "off_unit_sphere", detail=dict(x=xq, u=u, ode=b1, f=b2), sub="model", case=case)
+                    break
     # (2) hover equilibrium
     xh = np.concatenate([[0, 0, 5.0], np.zeros(3), [1, 0, 0, 0], np.zeros(3), np.full(4, hover)])
     xdh = np.array(f(xh, np.full(4, hover), pv), dtype=float).reshape(-1)
